@@ -63,9 +63,14 @@ def cmake_config():
         return cfg
     import shlex
     defs, incs, srcs = [], [], []
+    cdefs = []
     for e in json.load(open(cc)):
         f = os.path.normpath(os.path.join(e.get('directory', ''), e['file']))
         if not f.startswith(os.path.join(REPO, 'src') + os.sep):
+            # a consumer of the library inside the project (example, unit test): definitions every one of them receives
+            # are what the project's build hands to users of the library (INTERFACE/PUBLIC compile definitions)
+            a2 = e.get('arguments') or shlex.split(e.get('command', ''))
+            cdefs.append([a for a in a2 if a.startswith('-D') and len(a) > 2 and 'EXPORTS' not in a])
             continue
         srcs.append(f)
         args = e.get('arguments') or shlex.split(e.get('command', ''))
@@ -82,9 +87,45 @@ def cmake_config():
                 if v not in (os.path.join(REPO, 'include'), os.path.join(REPO, 'src')) and v not in incs and os.path.isdir(v):
                     incs.append(v)
             i += 1
-    cfg.update(defs=defs, incs=incs, srcs=sorted(set(srcs)))
+    common = [d for d in (cdefs[0] if cdefs else []) if all(d in c for c in cdefs) and d not in defs]
+    cfg.update(defs=defs, incs=incs, srcs=sorted(set(srcs)), consumer_defs=common)
     _CMAKE = cfg
     return cfg
+
+
+def consumer_defs():
+    return list(cmake_config().get('consumer_defs', []))
+
+
+def header_switches(limit=4):
+    """configuration switches of the public headers: names a header tests with #if/#ifdef/#ifndef/defined() that nothing
+    in the tree defines, that the compiler does not predefine and that are not reserved (platform) names. A user turns
+    such a switch on by defining it before the #include line; each one gives a world of its own (callers compiled with
+    it, library as shipped)."""
+    inc = os.path.join(REPO, 'include')
+    tested, defined = set(), set()
+    files = glob.glob(os.path.join(inc, '**', '*.h'), recursive=True)
+    for f in files + repo_sources() + glob.glob(os.path.join(REPO, 'src', '**', '*.h'), recursive=True):
+        try:
+            txt = open(f, errors='replace').read()
+        except OSError:
+            continue
+        txt = re.sub(r'/\*.*?\*/', ' ', txt, flags=re.S)
+        txt = re.sub(r'\\\n', ' ', txt)
+        for m in re.finditer(r'^[ \t]*#[ \t]*define[ \t]+(\w+)', txt, flags=re.M):
+            defined.add(m.group(1))
+        if f in files:
+            for m in re.finditer(r'^[ \t]*#[ \t]*(ifdef|ifndef|if|elif)\b(.*)$', txt, flags=re.M):
+                if m.group(1) in ('ifdef', 'ifndef'):
+                    tested.update(re.findall(r'^\s*(\w+)', m.group(2)))
+                else:
+                    tested.update(re.findall(r'defined\s*\(?\s*(\w+)', m.group(2)))
+                    tested.update(w for w in re.findall(r'\b([A-Za-z]\w*)\b', re.sub(r'defined\s*\(?\s*\w+\s*\)?', ' ', m.group(2))) if not re.match(r'^\d', w))
+    base = sh(['gcc', '-std=gnu99', '-E', '-dM', '-x', 'c', '/dev/null']).stdout
+    predefined = set(re.findall(r'^#define (\w+)', base, flags=re.M))
+    out = sorted(t for t in tested if t not in defined and t not in predefined and not t.startswith('_') and t not in ('NDEBUG', 'defined')
+                 and not any(d == '-D' + t or d.startswith('-D' + t + '=') for d in cmake_config()['defs'] + consumer_defs()))
+    return out[:limit]
 
 
 def lib_flags():
@@ -134,7 +175,25 @@ HANDWRAPPED = {'Avtp_CanBrief_Finalize', 'Avtp_CanBrief_SetPayload', 'Avtp_Can_C
                'Avtp_Vss_SetVssPath'}
 
 
-def build_world(wdir, gdir, cc='gcc', cflags=('-O2', '-g'), world_srcs=(), defines=(), cxx_callers=False):
+def platform_branches():
+    """reserved (platform) names the public headers test that this host's compilers do not predefine: the code behind them
+    is compiled in no world of this sandbox (it needs that platform's headers); reported as incomplete coverage"""
+    inc = os.path.join(REPO, 'include')
+    tested = {}
+    for f in glob.glob(os.path.join(inc, '**', '*.h'), recursive=True):
+        txt = re.sub(r'/\*.*?\*/', ' ', open(f, errors='replace').read(), flags=re.S)
+        for m in re.finditer(r'^[ \t]*#[ \t]*(ifdef|ifndef|if|elif)\b(.*)$', txt, flags=re.M):
+            for w in re.findall(r'\b(_[A-Za-z_]\w*)\b', m.group(2)):
+                tested.setdefault(w, os.path.relpath(f, inc))
+    pre = set()
+    for cmd in (['gcc', '-std=gnu99', '-x', 'c'], ['g++', '-x', 'c++'], ['clang', '--target=x86_64-w64-windows-gnu', '-x', 'c'], ['gcc', '-m32', '-x', 'c']):
+        pre |= set(re.findall(r'^#define (\w+)', sh(cmd + ['-E', '-dM', '/dev/null']).stdout, flags=re.M))
+    known = {'_MSC_VER', '__STRICT_ANSI__', '_LITTLE_ENDIAN', '_BIG_ENDIAN', '_PDP_ENDIAN', '_BYTE_ORDER', '__BYTE_ORDER', '__LITTLE_ENDIAN', '__BIG_ENDIAN',
+             '__BIG_ENDIAN__', '__LITTLE_ENDIAN__', '__ARMEB__', '__MIPSEB__', '__AVX__', '__AVX2__', '__BMI2__', '__SSSE3__', '__SSE4_1__', '__SSE4_2__', '_REENTRANT', '_MT'}
+    return sorted('%s (%s)' % (w, f) for w, f in tested.items() if w not in pre and w not in known)
+
+
+def build_world(wdir, gdir, cc='gcc', cflags=('-O2', '-g'), world_srcs=(), defines=(), cxx_callers=False, caller_defs=(), soft=False):
     """compile the library of the current working tree plus the thunks with one
     compiler/flag set; returns the list of object files. cxx_callers: the generated per-format thunks are compiled as
     C++ (the library stays C), so that whatever the public headers define inline is the C++ rendering of it"""
@@ -142,13 +201,23 @@ def build_world(wdir, gdir, cc='gcc', cflags=('-O2', '-g'), world_srcs=(), defin
     base = [cc, '-std=gnu99', *lib_flags(), '-I' + os.path.join(ROOT, 'world')] + list(cflags) + list(defines)
     cmds, objs = [], []
     gen_wraps = sorted(glob.glob(os.path.join(gdir, 'wrap_*.c')))
-    for s in repo_sources() + gen_wraps + [os.path.join(ROOT, 'world', w) for w in world_srcs]:
+    # callers (the thunks) also get what the project's build passes to every consumer, and the switch of a switch world
+    cdefs = consumer_defs() + list(caller_defs)
+    lib = repo_sources()
+    for s in lib + gen_wraps + [os.path.join(ROOT, 'world', w) for w in world_srcs]:
         o = os.path.join(wdir, objname(s))
+        extra = [] if s in lib else cdefs
         if cxx_callers and s in gen_wraps and re.match(r'wrap_[A-Z]\w*\.c$', os.path.basename(s)):
-            cmds.append(['g++' if cc == 'gcc' else 'clang++', '-x', 'c++', '-std=gnu++11', '-w', '-fpermissive'] + base[2:] + ['-c', s, '-o', o])
+            cmds.append(['g++' if cc == 'gcc' else 'clang++', '-x', 'c++', '-std=gnu++11', '-w', '-fpermissive'] + base[2:] + extra + ['-c', s, '-o', o])
         else:
-            cmds.append(base + ['-c', s, '-o', o])
+            cmds.append(base + extra + ['-c', s, '-o', o])
         objs.append(o)
+    if soft:
+        with cf.ThreadPoolExecutor(NCPU) as ex:
+            for c, r in zip(cmds, ex.map(sh, cmds)):
+                if r.returncode != 0:
+                    raise WorldUnavailable('callers do not compile with %s: %s' % (' '.join(caller_defs), (r.stderr.strip().splitlines() or ['?'])[0][:160]))
+        return objs
     par(cmds, 'world build (%s %s)' % (cc, ' '.join(cflags)))
     return objs
 
